@@ -1,5 +1,8 @@
 import CueVerif.Driver.Proto
 import CueVerif.Spec.Closed
+import CueVerif.Spec.ClosedDenied
+import CueVerif.Model.Typo
+import CueVerif.Model.PatMatch
 /-!
 Protocol handler for C05.  Expressions travel as one space-free word:
 
@@ -14,6 +17,11 @@ Ops:
   adm <schema> <data>          spec checker `admits` → `ok` | `err`
   allows <schema> <data> <label>   model: may `label` be added to schema & data (`T` = no data)
   uni / fill <schema> <data>   model verdict (`ok` | `err`) for Value.Unify / Value.FillPath
+  den <schema> <data>          spec: minimal denied paths (`a.b,c` | `-`)
+  tyev <schema> <data>         evidence model (typocheck.go transcription): minimal denied paths
+  pm <pattern> <labelhex>      matchPattern model: does the pattern constraint match the string label
+                               pattern ::= T | S | I | b<op>:<hex> | bne:null | s<hex> | n<int> | &(p,p) | |(p,p)
+                               op ::= lt le gt ge ne mat nmat; regexps are `^lit` / `lit$`
 -/
 namespace CueVerif.Driver.C05
 open CueVerif CueVerif.Driver CueVerif.Closed
@@ -155,8 +163,78 @@ partial def showFields (v : Val) : String :=
     "{" ++ ",".intercalate (items.foldr insertStr []) ++ "}"
   | _ => ""
 
+/-! pattern values for `pm` -/
+open CueVerif.PatMatch in
+mutual
+partial def pPat (cs : List Char) : Option (PatV × List Char) :=
+  match cs with
+  | 'T' :: r => some (.top, r)
+  | 'S' :: r => some (.basic .string, r)
+  | 'I' :: r => some (.basic .int, r)
+  | 'b' :: r =>
+    let opS := String.ofList (r.takeWhile (· != ':'))
+    let r := (r.dropWhile (· != ':')).drop 1
+    let arg := r.takeWhile (fun c => c != ',' && c != ')')
+    let r := r.dropWhile (fun c => c != ',' && c != ')')
+    let op : Option Scalar.Op := match opS with
+      | "lt" => some .lt | "le" => some .le | "gt" => some .gt | "ge" => some .ge
+      | "ne" => some .ne | "mat" => some .mat | "nmat" => some .nmat | _ => none
+    match op with
+    | none => none
+    | some op =>
+      if String.ofList arg == "null" then some (.bound ⟨op, .null⟩, r)
+      else (unhex (String.ofList arg)).map fun bs => (.bound ⟨op, .str bs⟩, r)
+  | 's' :: r =>
+    let arg := r.takeWhile (fun c => c != ',' && c != ')')
+    (unhex (String.ofList arg)).map fun bs => (.str bs, r.dropWhile (fun c => c != ',' && c != ')'))
+  | 'n' :: r =>
+    let arg := r.takeWhile (fun c => c != ',' && c != ')')
+    (parseInt? (String.ofList arg)).map fun z => (.num z, r.dropWhile (fun c => c != ',' && c != ')'))
+  | '&' :: '(' :: r => pPat2 PatV.conj r
+  | '|' :: '(' :: r => pPat2 PatV.disj r
+  | _ => none
+partial def pPat2 (k : PatV → PatV → PatV) (cs : List Char) : Option (PatV × List Char) := do
+  let (a, r) ← pPat cs
+  match r with
+  | ',' :: r => do
+    let (b, r) ← pPat r
+    match r with
+    | ')' :: r => some (k a b, r)
+    | _ => none
+  | _ => none
+end
+
+/-- the regular expressions of the generated patterns: `^lit` and `lit$` -/
+def reAnchored (p s : List Nat) : Bool :=
+  match p with
+  | 94 :: q => q.isPrefixOf s
+  | _ => match p.reverse with
+    | 36 :: q => q.reverse.isSuffixOf s
+    | _ => false
+
+/-- canonical form of a set of paths: only the minimal ones (no proper prefix in the set),
+dotted, sorted, comma separated; `-` for the empty set -/
+def showPaths (ps : List (List Label)) : String :=
+  let min := ps.filter fun p => !(ps.any fun q => q.length < p.length && q.isPrefixOf p)
+  let strs := (min.map fun p => ".".intercalate (p.map labelStr)).eraseDups
+  if strs.isEmpty then "-" else ",".intercalate (strs.foldr insertStr [])
+
 def handle (ws : List String) : String :=
   match ws with
+  | ["pm", p, l] =>
+    match pPat p.toList, unhex l with
+    | some (pv, []), some lb => boolStr (PatMatch.matchPattern reAnchored (some pv) true lb)
+    | _, _ => "bad-op"
+  -- spec: minimal paths of fields present in the result that some closed conjunct denies
+  | ["den", s, d] =>
+    match parseExpr s, (parseExpr d).bind toData with
+    | some se, some dd => showPaths (denied se dd)
+    | _, _ => "bad-op"
+  -- evidence model (transcription of typocheck.go): paths of the arcs checkTypos denies
+  | ["tyev", s, d] =>
+    match parseExpr s, parseExpr d with
+    | some se, some de => showPaths (Typo.typoDenied se de)
+    | _, _ => "bad-op"
   | ["val", s, d] =>
     match parseExpr s, parseExpr d with
     | some se, some de =>
